@@ -808,6 +808,10 @@ def gen_C10(rng, ci, tier):
             y = rand_codes(rng, ci, n)
         a = s.new_from_codes(rng, x)
         b = s.new_from_codes(rng, y)
+        if not is_ord:
+            s.add("eq", 2, SD(a), SD(b))
+            out.append(s.ops)
+            continue
         s.add("cmp", a, b); s.add("cmp", b, a); s.add("cmp", a, a)
         s.add("eq", 2, SD(a), SD(b))
         if is_ord and 0 < n <= ci.per_word and n in grid[0]:
